@@ -35,6 +35,7 @@ struct MockT
   MAKE_MOCK1(vv, std::vector<std::string>(std::vector<std::string>));
   MAKE_MOCK1(nest, int(int));
   MAKE_MOCK1(thr, int(int));
+  MAKE_MOCK2(bin, int(std::string const&, int));
 };
 std::unique_ptr<Rec> g_inner;
 }
@@ -106,6 +107,12 @@ static void test_0()
       }
     }
     {
+      // an argument with an embedded NUL: what follows it (the rest of the value, the other arguments, the result) is part of the record
+      REQUIRE_CALL(m, bin(trompeloeil::_, trompeloeil::_)).RETURN(_2 + 1);                      G::out("L bin %d", __LINE__);
+      std::string z = a; z.push_back(char(0)); z += "tail";
+      G::out("V %d", m.bin(z, 40 + round));
+    }
+    {
       REQUIRE_CALL(m, thr(trompeloeil::_)).THROW(std::runtime_error("boom" + std::to_string(_1))).TIMES(2); G::out("L thr %d", __LINE__);
       for (int k = 0; k < 2; ++k)
       {
@@ -121,7 +128,7 @@ static G::Reg reg_0(0, &test_0);
 
 
 FUNC = {'s1a': 's1', 's1m': 's1', 's1l': 's1', 'sc': 'sc', 'sck': 'sc', 'sr': 'sr', 'vec': 'vec', 'pr': 'pr', 'vv': 'vv',
-        'nest': 'nest', 'nest2': 'nest', 'nest3': 'nest', 'thr': 'thr'}
+        'nest': 'nest', 'nest2': 'nest', 'nest3': 'nest', 'thr': 'thr', 'bin': 'bin'}
 
 
 def _vecs(xs):
@@ -143,6 +150,7 @@ def expected_calls():
         c.append(('vec', 1, [str(rnd)], '-> ' + _vecs([str(rnd)] * rnd), 'V %d' % rnd))
         c.append(('pr', 1, [str(rnd), a], '-> ' + _vecs([str(rnd + 1), a + '!']), 'V %d %s!' % (rnd + 1, a)))
         c.append(('vv', 1, [_vecs([a, '', 'z z'])], '-> ' + _vecs([a, '', 'z z']), 'V 3 %s' % a))
+        c.append(('bin', 1, [a + '\x00tail', str(40 + rnd)], '-> %d' % (41 + rnd), 'V %d' % (41 + rnd)))
         c.append(('nest', (1, 2), [str(rnd + 5)], '-> %d' % ((rnd + 5) * 2), 'V %d' % ((rnd + 5) * 2)))
         c.append(('nest2', 2, [str(rnd)], '-> %d' % (rnd * 3), 'V %d' % (rnd * 3)))
         c.append(('nest3', 1, [str(rnd)], '-> %d' % (rnd * 4), 'V %d' % (rnd * 4)))
